@@ -578,6 +578,12 @@ Theorem C16_pinned_header_is_sent : forall s k v ch,
 Proof. exact pinned_header_is_sent. Qed.
 Print Assumptions C16_pinned_header_is_sent.
 
+(* retries (fix df72f46): an attempt after the first does not merge the client's headers again *)
+Theorem C16_retry_sends_first_attempt : forall s ch ch' n,
+  rmerge_attempt (S n) (rmerge_attempt 0 s ch) ch' = rmerge_attempt 0 s ch.
+Proof. exact retry_sends_first_attempt. Qed.
+Print Assumptions C16_retry_sends_first_attempt.
+
 (* recognising the merged copy by its VALUES instead of its identity sends the client's new value *)
 Theorem C16_unmerge_by_value_refuted :
   let K := bs "X-Token" in
